@@ -2,6 +2,8 @@ package main
 
 import (
 	"fmt"
+	"go/ast"
+	"go/token"
 	"math"
 	"strings"
 
@@ -65,4 +67,159 @@ func genOptionDefs(g *gen) {
 	tbl("message/tcpOptions.go: TCPSignalAbortOptionDefs", "tcpSignalAbortOptionDefs", message.TCPSignalAbortOptionDefs)
 	b.WriteString("\nend CoapVerif.Generated.OptionDefs\n")
 	g.write("OptionDefs.lean", b.String())
+}
+
+// ---------------------------------------------------------------- shape of the pooled capacity-retry loop
+
+func init() {
+	register("PoolRetry.lean", genPoolRetry)
+}
+
+// genPoolRetry recognises, in message/pool/message.go: (*Message).decode,
+//
+//	for {
+//		n, err = decoder.Decode(r.bufferUnmarshal, &r.msg)
+//		if errors.Is(err, message.ErrOptionsTooSmall) {
+//			optionsCap := len(r.msg.Options) * K
+//			if optionsCap == 0 { optionsCap = Z }            // optional
+//			if optionsCap > L { optionsCap = L }              // optional: a cap on the capacity (L literal or constant)
+//			r.msg.Options = make(message.Options, 0, optionsCap)
+//			continue
+//		}
+//		return n, err
+//	}
+//
+// and emits K, Z and the optional cap L. Any other statement in the retry branch fails closed.
+func genPoolRetry(g *gen, repo string) {
+	_, f := parseFile(repo, "message/pool/message.go")
+	fd := funcDecl(f, "Message", "decode")
+	var loop *ast.ForStmt
+	for _, st := range fd.Body.List {
+		if fs, ok := st.(*ast.ForStmt); ok {
+			if loop != nil {
+				fail("Message.decode: more than one loop")
+			}
+			loop = fs
+		}
+	}
+	if loop == nil || loop.Cond != nil || loop.Init != nil || loop.Post != nil {
+		fail("Message.decode: expected one `for { … }` loop")
+	}
+	if len(loop.Body.List) != 3 {
+		fail("Message.decode: loop body is not `decode; if too-small {…}; return`")
+	}
+	if _, ok := loop.Body.List[2].(*ast.ReturnStmt); !ok {
+		fail("Message.decode: loop does not end with `return n, err`")
+	}
+	ifs, ok := loop.Body.List[1].(*ast.IfStmt)
+	if !ok || ifs.Else != nil || ifs.Init != nil {
+		fail("Message.decode: second statement of the loop is not a plain if")
+	}
+	call, ok := ifs.Cond.(*ast.CallExpr)
+	if !ok || len(call.Args) != 2 || selName(call.Fun) != "errors.Is" || selName(call.Args[1]) != "message.ErrOptionsTooSmall" {
+		fail("Message.decode: retry condition is not errors.Is(err, message.ErrOptionsTooSmall)")
+	}
+	body := ifs.Body.List
+	if len(body) < 3 {
+		fail("Message.decode: retry branch too short")
+	}
+	// 1. optionsCap := len(r.msg.Options) * K
+	def, ok := body[0].(*ast.AssignStmt)
+	if !ok || def.Tok != token.DEFINE || len(def.Lhs) != 1 || len(def.Rhs) != 1 {
+		fail("Message.decode: retry branch does not start with `v := len(r.msg.Options) * K`")
+	}
+	v := identName(def.Lhs[0])
+	mul, ok := def.Rhs[0].(*ast.BinaryExpr)
+	if !ok || mul.Op != token.MUL {
+		fail("Message.decode: new capacity is not `len(r.msg.Options) * K`")
+	}
+	lc, ok := mul.X.(*ast.CallExpr)
+	if !ok || identName(lc.Fun) != "len" || len(lc.Args) != 1 || selName(lc.Args[0]) != "r.msg.Options" {
+		fail("Message.decode: new capacity is not computed from len(r.msg.Options)")
+	}
+	factor := intLit(mul.Y)
+	zero := uint64(0)
+	limit := "none"
+	// 2. optional adjustments
+	for _, st := range body[1 : len(body)-2] {
+		is, ok := st.(*ast.IfStmt)
+		if !ok || is.Else != nil || is.Init != nil || len(is.Body.List) != 1 {
+			fail("Message.decode: unexpected statement in the retry branch")
+		}
+		cond, ok := is.Cond.(*ast.BinaryExpr)
+		as, ok2 := is.Body.List[0].(*ast.AssignStmt)
+		if !ok || !ok2 || identName(cond.X) != v || as.Tok != token.ASSIGN || len(as.Lhs) != 1 || identName(as.Lhs[0]) != v || len(as.Rhs) != 1 {
+			fail("Message.decode: adjustment of the new capacity has an unexpected shape (e.g. returns instead of assigning)")
+		}
+		switch cond.Op {
+		case token.EQL:
+			if intLit(cond.Y) != 0 {
+				fail("Message.decode: `%s == N` with N != 0", v)
+			}
+			zero = intLit(as.Rhs[0])
+		case token.GTR:
+			l := constOrLit(f, cond.Y)
+			if constOrLit(f, as.Rhs[0]) != l {
+				fail("Message.decode: capacity clamp assigns a different value than it tests")
+			}
+			limit = fmt.Sprintf("some %d", l)
+		default:
+			fail("Message.decode: unexpected comparison in the retry branch")
+		}
+	}
+	// 3. r.msg.Options = make(message.Options, 0, v)   4. continue
+	as, ok := body[len(body)-2].(*ast.AssignStmt)
+	if !ok || as.Tok != token.ASSIGN || len(as.Lhs) != 1 || selName(as.Lhs[0]) != "r.msg.Options" {
+		fail("Message.decode: retry branch does not assign r.msg.Options")
+	}
+	mk, ok := as.Rhs[0].(*ast.CallExpr)
+	if !ok || identName(mk.Fun) != "make" || len(mk.Args) != 3 || intLit(mk.Args[1]) != 0 || identName(mk.Args[2]) != v {
+		fail("Message.decode: new option slice is not make(message.Options, 0, %s)", v)
+	}
+	if br, ok := body[len(body)-1].(*ast.BranchStmt); !ok || br.Tok != token.CONTINUE {
+		fail("Message.decode: retry branch does not end with continue")
+	}
+	var b strings.Builder
+	b.WriteString("namespace CoapVerif.Generated.PoolRetry\n\n")
+	b.WriteString("/-! message/pool/message.go: (*Message).decode — shape of the retry branch after ErrOptionsTooSmall (read from the AST) -/\n")
+	fmt.Fprintf(&b, "/-- new capacity = len(r.msg.Options) * retryFactor -/\ndef retryFactor : Nat := %d\n", factor)
+	fmt.Fprintf(&b, "/-- … replaced by this value when it is 0 (0 = no such statement) -/\ndef retryZeroCap : Nat := %d\n", zero)
+	fmt.Fprintf(&b, "/-- … clamped to this value when larger (`none` = the capacity is not capped); hitting a cap is NOT an error in this shape -/\ndef retryCapLimit : Option Nat := %s\n", limit)
+	b.WriteString("\nend CoapVerif.Generated.PoolRetry\n")
+	g.write("PoolRetry.lean", b.String())
+}
+
+// selName renders a.b.c selector chains and identifiers.
+func selName(e ast.Expr) string {
+	switch t := e.(type) {
+	case *ast.Ident:
+		return t.Name
+	case *ast.SelectorExpr:
+		return selName(t.X) + "." + t.Sel.Name
+	}
+	return ""
+}
+
+// constOrLit is the value of an integer literal or of a package-level integer constant of the file.
+func constOrLit(f *ast.File, e ast.Expr) uint64 {
+	if bl, ok := e.(*ast.BasicLit); ok {
+		return intLit(bl)
+	}
+	name := identName(e)
+	for _, d := range f.Decls {
+		gd, ok := d.(*ast.GenDecl)
+		if !ok || gd.Tok != token.CONST {
+			continue
+		}
+		for _, sp := range gd.Specs {
+			vs := sp.(*ast.ValueSpec)
+			for i, n := range vs.Names {
+				if n.Name == name && i < len(vs.Values) {
+					return intLit(vs.Values[i])
+				}
+			}
+		}
+	}
+	fail("cannot resolve integer constant %q", name)
+	return 0
 }
